@@ -75,7 +75,33 @@ impl<T: FileReader> RVParser<T> {
             Err(err) => diags.push(DiagnosticItem::from(*err)),
         }
         self.sort_diagnostics(&mut diags);
+        self.dedup_diagnostics(&mut diags);
         diags
+    }
+
+    /// Remove diagnostics that repeat an earlier one at the same place of the
+    /// same file.
+    ///
+    /// A file that is included twice is read twice and gets two identifiers,
+    /// so everything found in it would otherwise be listed once per inclusion,
+    /// with the same file name, position and text.
+    pub fn dedup_diagnostics(&self, diags: &mut Vec<DiagnosticItem>) {
+        let mut seen = std::collections::BTreeSet::new();
+        diags.retain(|d| {
+            let level = match d.level {
+                crate::passes::SeverityLevel::Error => 0,
+                crate::passes::SeverityLevel::Warning => 1,
+                crate::passes::SeverityLevel::Information => 2,
+                crate::passes::SeverityLevel::Hint => 3,
+            };
+            seen.insert((
+                self.reader.get_filename(d.file),
+                d.range.clone(),
+                level,
+                d.title.clone(),
+                d.description.clone(),
+            ))
+        });
     }
 
     /// Sort diagnostics by file name, then by position within the file.
